@@ -8,3 +8,4 @@ import OQuPyVerif.Props.C06
 import OQuPyVerif.Props.C01
 import OQuPyVerif.Props.C18
 import OQuPyVerif.Props.C14
+import OQuPyVerif.Props.C05
